@@ -65,7 +65,9 @@ def run(ctx):
     # table shapes: one state key per byte value, one piece key per (square, piece)
     st = F.const_ints("chess::zobrist::STATE", 8)
     pc = F.const_ints("chess::zobrist::PIECE", 8)
-    shape_ok = len(st) == 256 and len(pc) == 768 and F.const("chess::zobrist::PIECE")["ty"] == "[[u64; 12]; 64]"
+    from .common import array_dims
+    pdims = array_dims(F.const("chess::zobrist::PIECE")["ty"], F)
+    shape_ok = len(st) == 256 and len(pc) == 768 and pdims == [64, 12]
     ctx.check("C05.D3", "key-table-shapes", shape_ok, file="src/chess/zobrist.rs",
               what="the key tables no longer have one state key per state byte (256) and one piece key per square x piece (64 x 12): "
                    "distinct feature values must share keys", expected={"STATE": 256, "PIECE": "64 x 12"},
